@@ -200,12 +200,11 @@ namespace Pistache
     template <typename T>
     size_t digitsCount(T val)
     {
-        size_t digits = 0;
-        while (val % 10)
+        // number of characters operator<< writes for val in base 10
+        size_t digits = (val < 0) ? 2 : 1;
+        while (val /= 10)
         {
             ++digits;
-
-            val /= 10;
         }
 
         return digits;
